@@ -84,7 +84,7 @@ pub fn run(ctx: &Ctx) -> (Report, String) {
     if ctx.is_main() {
         let m = ctx.scale_pct;
         rep.require("p_pictures_compared", if ctx.tier == Tier::Quick { 200_000 } else { 3_000_000 } * m / 100);
-        for k in ["phase=00", "phase=10", "phase=01", "phase=11", "edge=inside", "edge=crossing", "edge=outside", "kind=INTER", "kind=INTER4V", "kind=INTER+Q", "kind=INTER4V+Q", "kind=not-coded", "kind=INTRA", "kind=implicit-after-end", "no_reference_rejected", "truncated_pictures"] {
+        for k in ["phase=00", "phase=10", "phase=01", "phase=11", "edge=inside", "edge=crossing", "edge=outside", "kind=INTER", "kind=INTER4V", "kind=INTER+Q", "kind=INTER4V+Q", "kind=not-coded", "kind=INTRA", "kind=implicit-after-end", "no_reference_rejected", "truncated_pictures", "interlude_rejected_inputs", "interlude_disposable_pictures_compared", "no_reference_after_all_intra_disposable", "no_reference_after_rejected_input"] {
             rep.require(k, 1000 * m / 100);
         }
     }
@@ -290,6 +290,37 @@ fn case_cov(ctx: &Ctx, shard: usize, index: u64, rep: &mut Report, cov: &mut Cov
         });
         let bytes = pic.encode();
         let mut dec = Dec::new(flavour.sorenson(), false);
+        // history variant: the decoder has already seen pictures, but none that may serve as a
+        // reference - rejected inputs, and complete disposable pictures made of intra macroblocks only
+        if rng.chance(1, 2) {
+            for _ in 0..1 + rng.below(3) {
+                if flavour.sorenson() && rng.chance(2, 3) {
+                    let mut c2 = cfg.clone();
+                    if rng.chance(1, 3) {
+                        c2.w = 1 + rng.below(40) as usize;
+                    }
+                    let mut d = gen_reference(&mut rng, &c2);
+                    if let Hdr::Sor(hd) = &mut d.hdr {
+                        hd.ptype = 2;
+                    }
+                    match dec.decode(&d.encode()) {
+                        Outcome::Ok => rep.count("no_reference_after_all_intra_disposable"),
+                        Outcome::Panic { msg, loc } => {
+                            rep.violation(format!("panic@{}", loc), format!("all-intra disposable picture on a fresh decoder panicked: {}", msg), coords("no-reference-history"));
+                            return;
+                        }
+                        Outcome::Err(_) => rep.count("void:all-intra-disposable-refused"),
+                    }
+                } else {
+                    let fb = super::c04::failing_input(&mut rng, &cfg);
+                    if dec.decode(&fb) == Outcome::Ok {
+                        rep.count("void:failing-input-accepted");
+                        return;
+                    }
+                    rep.count("no_reference_after_rejected_input");
+                }
+            }
+        }
         let out = dec.decode(&bytes);
         match (&out, needs_pred) {
             (Outcome::Err(_), true) => rep.count("no_reference_rejected"),
@@ -319,6 +350,47 @@ fn case_cov(ctx: &Ctx, shard: usize, index: u64, rep: &mut Report, cov: &mut Cov
         let nmb = ((w + 15) / 16) * ((h + 15) / 16);
         let truncate = if rng.chance(1, 6) { Some(rng.below(nmb as u64 + 1) as usize) } else { None };
         let ic = InterCfg { ptype: 0, big_vectors_pct: *rng.pick(&[0u64, 30, 100]), residual_pct: *rng.pick(&[0u64, 0, 30, 80]), truncate, allow_q: true };
+        // interlude: events that must leave the current reference picture alone - inputs that are
+        // rejected (among them intra pictures whose header parses and whose body does not) and,
+        // in Sorenson streams, disposable pictures (themselves checked against the reference)
+        if rng.chance(1, 4) {
+            for _ in 0..1 + rng.below(3) {
+                if flavour.sorenson() && rng.chance(1, 2) {
+                    let mut c2 = cfg.clone();
+                    c2.tr = cfg.tr.wrapping_add(rng.below(3) as u8);
+                    let ic2 = InterCfg { ptype: 2, big_vectors_pct: 30, residual_pct: 30, truncate: None, allow_q: true };
+                    let d = gen_inter(&mut rng, &c2, &ic2);
+                    let db = d.encode();
+                    fp = crate::util::fnv64_more(fp, &db);
+                    match check_inter(&mut dec, &refp, &d, &db) {
+                        Ok(_) => rep.count("interlude_disposable_pictures_compared"),
+                        Err(f) if f.sig == "generator-invalid" => {
+                            rep.inconclusive.push(f.detail);
+                            return;
+                        }
+                        Err(f) => {
+                            rep.violation(format!("interlude/{}", f.sig), format!("{} disposable picture before step {}: {}", flavour.name(), step, f.detail), coords("chain"));
+                            return;
+                        }
+                    }
+                } else {
+                    let fb = super::c04::failing_input(&mut rng, &cfg);
+                    fp = crate::util::fnv64_more(fp, &fb);
+                    match dec.decode(&fb) {
+                        Outcome::Err(_) => rep.count("interlude_rejected_inputs"),
+                        Outcome::Ok => {
+                            rep.count("void:failing-input-accepted");
+                            return;
+                        }
+                        Outcome::Panic { msg, loc } => {
+                            rep.violation(format!("panic@{}", loc), format!("rejected-input interlude panicked: {}", msg), coords("chain"));
+                            return;
+                        }
+                    }
+                }
+            }
+            rep.count("chains_with_interlude");
+        }
         let pic = gen_inter(&mut rng, &cfg, &ic);
         let bytes = pic.encode();
         fp = crate::util::fnv64_more(fp, &bytes);
